@@ -913,6 +913,13 @@ func (e *Env) call(n *SCall) SVal {
 			}
 		}
 		return SVal{t: mkAnd(cs...), gt: boolT}
+	case "mapset":
+		// mapset(m, k, v): the mathematical map m with k mapped to v
+		m := e.rv(e.eval(n.Args[0]))
+		if !strings.HasPrefix(m.Sort, "(Array ") {
+			e.fail("mapset on a value of sort %s", m.Sort)
+		}
+		return SVal{t: mkStore(m, e.rv(e.eval(n.Args[1])), e.rv(e.eval(n.Args[2])))}
 	case "deref":
 		// deref(p): the value stored in the cell that pointer p refers to
 		v := e.eval(n.Args[0])
